@@ -697,8 +697,15 @@ const pippengerTemplate = "for x0=0..BC-1 {A0[x0]=0}; " +
 func (c *skelChecker) hornerPippenger(sk *Skeleton) (string, token.Pos) {
 	x := sk.x
 	top := sk.norm
-	if len(x.recs) != 1 || x.recs[0].w == nil {
-		return "expected exactly one radix-2^w recoding", sk.decl.Pos()
+	if len(x.recs) < 1 || x.recs[0].w == nil {
+		return "expected a radix-2^w recoding", sk.decl.Pos()
+	}
+	// the scalar groups may be recoded by one loop over a literal of the groups or by one
+	// written-out loop per group; every recoding must use the same width
+	for _, r := range x.recs[1:] {
+		if r.kind != x.recs[0].kind || r.w == nil || !r.w.equal(x.recs[0].w) {
+			return "the scalar groups are recoded with different widths", r.pos
+		}
 	}
 	w := x.recs[0].w
 	wid, _, single := w.single()
@@ -772,7 +779,11 @@ func (c *skelChecker) hornerPippenger(sk *Skeleton) (string, token.Pos) {
 	}
 	// size = sum of len over the scalar roles of the recoding
 	size := konst(0)
-	for _, role := range strings.Split(strings.TrimSuffix(strings.TrimPrefix(x.recs[0].src, "each("), ")"), "++") {
+	var recRoles []string
+	for _, r := range x.recs {
+		recRoles = append(recRoles, strings.Split(strings.TrimSuffix(strings.TrimPrefix(r.src, "each("), ")"), "++")...)
+	}
+	for _, role := range recRoles {
 		found := false
 		for id, a := range x.sym.atoms {
 			if a.kind == "len" && a.label == role {
